@@ -86,6 +86,8 @@ fn text_has_dups(r: &text::Report) -> bool {
                     ls.push(l.val)
                 }
                 text::Rec::Function(_, _, n) => {
+                    // names meet after decoding
+                    let n = text::decode_name(n);
                     if fs.contains(&n) {
                         return true;
                     }
@@ -368,12 +370,7 @@ fn model_one(rep: &Report, req: &str) -> String {
 
 /// minimise a text input on which model and implementation differ (drop lines, then bytes)
 fn shrink_text_disagreement(rep: &Report, ctx: &Ctx, bytes: &[u8]) -> Vec<u8> {
-    let differs = |b: &[u8]| -> bool {
-        if std::str::from_utf8(b).is_err() {
-            return false;
-        }
-        impl_text(ctx, b).0 != model_one(rep, &text_req(b))
-    };
+    let differs = |b: &[u8]| -> bool { impl_text(ctx, b).0 != model_one(rep, &text_req(b)) };
     let mut cur = bytes.to_vec();
     loop {
         let lines: Vec<&[u8]> = cur.split_inclusive(|&c| c == b'\n').collect();
@@ -471,6 +468,16 @@ fn witnesses_text() -> Vec<(&'static str, Vec<u8>, &'static str)> {
             b"file:a.c\r\nfunction:3,0,a,b,c\r\nbranch:3,taken\r\nbranch:3,nottaken\r\nlcount:3,+07\r".to_vec(),
             "ok K612e63=L3:7;B3:10;F612c622c63:3:0",
         ),
+        // /repo 7f9b2b3 (review item 10, probe3_nonutf8_gcov_name.rs): names that are not UTF-8 are decoded
+        // lossily - FF and a lone C3 become U+FFFD; Lean example `exLossy`
+        ("non_utf8_names_decoded_lossily", b"file:a\xff.c\nfunction:1,-5,f\xc3\nlcount:1,1\n".to_vec(), "ok K61efbfbd2e63=L1:1;B;F66efbfbd:1:1"),
+        // two ill-formed names that decode to the same text are one function (last record wins)
+        ("non_utf8_names_meet_after_decoding", b"file:a.c\nfunction:1,0,\xff\nfunction:2,3,\xfe\nlcount:1,1\n".to_vec(), "ok K612e63=L1:1;B;Fefbfbd:2:1"),
+        // an ill-formed byte next to a separator does not move the separator
+        ("non_utf8_next_to_separators", b"file:\xc3\nfunction:1,\xc3,\xc3,x\nlcount:1,1\n".to_vec(), "ok Kefbfbd=L1:1;B;Fefbfbd2c78:1:1"),
+        // review item 35 / property text: executed iff the call count is non-zero - a negative count
+        // (gcov prints a wrapped counter with its signed formatter) is executed; only lcount clamps
+        ("function_negative_call_count_is_executed", b"file:a.c\nfunction:10,-2534,_Z3hotv\nfunction:11,-9223372036854775808,g\nfunction:12,0,h\nlcount:10,-2534\n".to_vec(), "ok K612e63=L10:0;B;F5f5a33686f7476:10:1,67:11:1,68:12:0"),
     ]
 }
 
@@ -522,11 +529,14 @@ fn corpus(rep: &mut Report, ctx: &Ctx, cases: &mut Vec<TieCase>) {
 
 pub fn run(rep: &mut Report) {
     rep.rule = "text: reports of 0-6 file sections (shuffled lcount/function/branch/other records; negative, zero, \
-                u64::MAX and >2^64 counts; '+' and leading zeros; names with commas, colons, UTF-8; sections without \
+u64::MAX and >2^64 counts; '+' and leading zeros; names with commas, colons, UTF-8 and (1 in 7) ill-formed \
+                UTF-8; negative function call counts; sections without \
                 lcount; LF/CRLF/mixed line ends; optional final newline) rendered to a .gcov file and read by \
                 parse_gcov; JSON: documents of 0-5 files (integer and exactly representable float counters, absent/null \
-                optional keys, unknown keys, shuffled key order, three whitespace styles) gzip-compressed and read by \
-                parse_gcov_gz; plus malformed streams (token soup, truncation, corruption, token substitution, record \
+                optional keys, unknown keys, shuffled key order, three whitespace styles; in 1 of 5 documents lines \
+                listed several times - with/without branches, branch arrays of different length, sums beyond 2^64 - \
+                and functions sharing a demangled name) gzip-compressed and read by \
+                parse_gcov_gz; gzip files with trailing bytes / a second member; plus malformed streams (token soup, truncation, corruption, token substitution, record \
                 moved before the first file: for text; tree mutations, non-gzip bytes, truncated gzip, broken JSON text: \
                 for JSON). non-trivial = some file has >=1 line and (>=1 branch or >=1 function), or the input is \
                 malformed; distinct = distinct input bytes (text) / distinct JSON text"
@@ -622,9 +632,11 @@ pub fn run(rep: &mut Report) {
         }
         rep.count(if shuffle { "json.keys_shuffled" } else { "json.keys_in_gcov_order" });
         rep.count(&format!("json.whitespace_style_{}", style));
+        // since /repo 5a9c87e the meaning of repeated lines / shared demangled names is part of the
+        // property oracle (sum, OR): every document goes through it
         let dups = json_has_dups(&d);
-        rep.count(if dups { "json.ast.with_duplicate_keys(tie only)" } else { "json.ast.spec_oracle" });
-        let oracle_failed = if dups { false } else { check_json_fidelity(rep, &ctx, &d, seed, shuffle, style) };
+        rep.count(if dups { "json.ast.spec_oracle.with_repeated_lines_or_functions" } else { "json.ast.spec_oracle" });
+        let oracle_failed = check_json_fidelity(rep, &ctx, &d, seed, shuffle, style);
         let (out, site) = impl_gz(&ctx, &case.gz);
         rep.count(&format!("json.impl.{}", out.split(' ').next().unwrap()));
         if i < 1 {
@@ -695,6 +707,50 @@ pub fn run(rep: &mut Report) {
         rep.case(&hex(&gz), true);
         rep.count(&format!("json.reader_error.{}.{}", kind, out.split(' ').next().unwrap()));
         cases.push(TieCase { req: json_req(None), impl_out: out, site, bytes: gz, json_text: None, is_text: false, oracle_failed: false });
+    }
+
+    // ---- gzip layer: what follows the first member is ignored (review item 35) -------------------
+    // `GzDecoder` reads one member and serde_json stops after the value: a second member or any
+    // trailing bytes in the FILE are never looked at. Recorded behaviour (model header of Gcov.lean):
+    // the result is that of the first member alone.
+    let m = rep.budget(60, 10);
+    for i in 0..m {
+        let d = json::gen_doc(&mut rng, true);
+        let tree = json::to_tree(&d, &mut rng, false);
+        let case = build_json_case(tree, &mut rng, 0);
+        let mut gz = case.gz.clone();
+        let kind = match i % 3 {
+            0 => {
+                let n = rng.range(1, 40) as usize;
+                gz.extend((0..n).map(|_| rng.next() as u8));
+                "garbage_after_member"
+            }
+            1 => {
+                let d2 = json::gen_doc(&mut rng, true);
+                let t2 = json::to_tree(&d2, &mut rng, false);
+                let c2 = build_json_case(t2, &mut rng, 0);
+                gz.extend_from_slice(&c2.gz);
+                "second_member"
+            }
+            _ => {
+                gz.extend_from_slice(&json::gzip(b"  \n"));
+                "second_member_of_blanks"
+            }
+        };
+        let (out, site) = impl_gz(&ctx, &gz);
+        let alone = impl_gz(&ctx, &case.gz).0;
+        rep.case(&hex(&gz), true);
+        rep.count(&format!("json.gzip_trailing.{}.{}", kind, out.split(' ').next().unwrap()));
+        if out != alone {
+            rep.fail(
+                "oracle",
+                None,
+                format!("parse_gcov_gz: {} changes the result of the first gzip member (recorded behaviour: ignored)", kind),
+                json!({"op": "gcov.json", "gz_hex": hex(&gz), "json": case.text, "tree": json_req(Some(&case.tree)).strip_prefix("gcov.json ").unwrap_or("!"),
+                       "impl": out, "spec": alone}),
+            );
+        }
+        cases.push(TieCase { req: json_req(Some(&case.tree)), impl_out: out, site, bytes: gz, json_text: Some(case.text), is_text: false, oracle_failed: false });
     }
 
     // ---- robustness oracle (C14) on every case, then the tie ----------------------------------
